@@ -289,6 +289,62 @@ def inspect_one(st: State, t, via_payload: bool, tools) -> None:
                                   % (mine, real, source, env))
 
 
+def study_pass(st: State, trees, tools) -> None:
+    """A parameter study: ONE node-configuration template is reused and its sweep expression is edited in place
+    between builds; every derived node is kept.  Afterwards (i.e. after the whole history) each kept node must still
+    report the signature of the expression it was built from, and nodes reporting equal signatures must compute equal
+    values.  Nothing the caller does to its own configuration objects after a build may reach a built node."""
+    run = st.run
+    from semantiva.examples.test_utils import FloatDataType
+    from semantiva.pipeline.node_preprocess import preprocess_node_config
+
+    build_payload = tools[4]
+    params = {"factor": None}
+    template = {"processor": "FloatMultiplyOperation",
+                "derive": {"parameter_sweep": {"parameters": params, "variables": {"a": [1, 2], "b": [3], "c": [5, 7]},
+                                               "collection": "FloatDataCollection"}}}
+    kept = []
+    for t in trees:
+        source = X.src(t)
+        params["factor"] = source
+        try:
+            cfg = preprocess_node_config(template)
+        except Exception as exc:
+            run.count("study_build_refused_" + type(exc).__name__)
+            continue
+        kept.append((t, source, cfg))
+    params["factor"] = "a - a"          # the caller moves on
+    by_sig: dict = {}
+    for t, source, cfg in kept:
+        try:
+            payload = build_payload([cfg])
+            got = payload["pipeline_spec_canonical"]["nodes"][0]["preprocessor_metadata"]["derive"]["parameter_sweep"]["parameters_sig"]["factor"]
+        except Exception as exc:
+            run.count("study_payload_failed_" + type(exc).__name__)
+            continue
+        run.count("study_nodes_checked")
+        expected = st.sig(source)
+        if got != expected:
+            st.report("reported_sig_changes_when_caller_edits_its_config",
+                      "a sweep node built from %s reports signature %r after the caller re-used and edited the configuration "
+                      "mapping it was built from; normalize_expression_sig_v1(%s) is %r" % (source, got, source, expected),
+                      {"oracle": "study", "a": X.to_json(t), "a_src": source, "observed": got, "expected": expected})
+            continue
+        try:
+            out = cfg["processor"]().process(FloatDataType(1.0))
+            vals = tuple(float(x.data) for x in out)
+        except Exception as exc:
+            run.count("study_run_failed_" + type(exc).__name__)
+            continue
+        prev = by_sig.setdefault(json.dumps(got, sort_keys=True, default=str), (source, vals, t))
+        if prev[1] != vals:
+            st.report("equal_reported_sig_different_sweep_values",
+                      "sweep nodes built from %s and %s report the same signature but compute %s and %s" % (prev[0], source, prev[1][:4], vals[:4]),
+                      {"oracle": "study", "a": X.to_json(prev[2]), "b": X.to_json(t), "a_src": prev[0], "b_src": source})
+        else:
+            run.count("study_value_agreements")
+
+
 def _tools():
     from semantiva.data_processors.parametric_sweep_factory import ParametricSweepFactory, SequenceSpec
     from semantiva.examples.test_utils import FloatDataCollection, FloatMultiplyOperation
@@ -385,6 +441,8 @@ def run(run):
     picks += [randoms[rng.randrange(len(randoms))] for _ in range(N_INSPECT[run.tier] // 3)] if randoms else []
     for j, t in enumerate(picks):
         inspect_one(st, t, via_payload=(j % 3 == 0), tools=tools)
+    # phase F: history — the caller re-uses and edits its configuration objects between builds
+    study_pass(st, picks[:40], tools)
 
     run.info["alphabet_full"] = X.alphabet_doc(X.FULL)
     run.info["alphabet_polynomial_fragment"] = X.alphabet_doc(X.POLY)
@@ -418,6 +476,7 @@ def run(run):
     run.floor("mutants_semantically_different_checked", 1000)
     run.floor("inspection_sig_checked", 20)
     run.floor("inspection_payload_sig_checked", 5)
+    run.floor("study_nodes_checked", 5)
     run.floor("evaluator_crosscheck", 50)
     run.assumptions += [
         "values are compared in exact arithmetic (int / bool / fractions.Fraction); x ** negative integer is the exact "
@@ -440,6 +499,10 @@ def replay(run, witness):
     if kind == "inspection":
         run.case("replay-second-slot", True)
         inspect_one(st, a, via_payload=True, tools=_tools())
+        return
+    if kind == "study":
+        run.case("replay-second-slot", True)
+        study_pass(st, [a] + ([X.from_json(witness["b"])] if witness.get("b") else []), _tools())
         return
     b = X.from_json(witness["b"])
     run.case(X.src(b), True, sample={"expr": X.src(b)})
